@@ -380,9 +380,203 @@ pub fn run(ctx: Ctx) -> Report {
 pub fn meta() -> CheckMeta {
     CheckMeta {
         level: "exploration",
-        rule: "scenario = 1-5 tasks performing the client's request sequence (open_stream, disable_buffering, destination write, 0-4 data frames via write_data_frame / the forwarding task) plus optional keep-alive writers on ONE fresh client Session (real server Session as peer), every payload tagged (task, sequence, fill); per scenario: the unperturbed run, EVERY single pre-emption position x yield length {1,2,4,8} at the named scheduling points of write_frame / write_with_padding / open_stream, all pairs of positions for small scenarios, and random schedules; thorough adds a 4-worker runtime without injected yields. Oracle: the recorded client->server wire parses completely, Settings is the first frame, SYN(id) precedes PSH(id), each task's frames appear exactly once in submission order, and the peer stream received the concatenated payloads. distinct_nontrivial = distinct (scenario, pre-emption plan / interleaving id). 40% of the generated scenarios (and two of the fixed ones) run the session's own keep-alive task (interval 30 s), whose start-up request races the session start and the first requests under the enumerated pre-emptions.".into(),
+        rule: "scenario = 1-5 tasks performing the client's request sequence (open_stream, disable_buffering, destination write, 0-4 data frames via write_data_frame / the forwarding task) plus optional keep-alive writers on ONE fresh client Session (real server Session as peer), every payload tagged (task, sequence, fill); per scenario: the unperturbed run, EVERY single pre-emption position x yield length {1,2,4,8} at the named scheduling points of write_frame / write_with_padding / open_stream, all pairs of positions for small scenarios, and random schedules; thorough adds a 4-worker runtime without injected yields. Oracle: the recorded client->server wire parses completely, Settings is the first frame, SYN(id) precedes PSH(id), each task's frames appear exactly once in submission order, and the peer stream received the concatenated payloads. distinct_nontrivial = distinct (scenario, pre-emption plan / interleaving id). 40% of the generated scenarios (and two of the fixed ones) run the session's own keep-alive task (interval 30 s), whose start-up request races the session start and the first requests under the enumerated pre-emptions. End to end: one application upload through the SOCKS5 / HTTP CONNECT front-end in write patterns that fill the front-end's 8 KiB read buffer exactly and then do not (8192,8192,1000; 16384,5; 65536,10; ...), back to back or with gaps, pipelined with the request or after the reply, half-closed at once or after a pause: the byte stream arriving at the target must be the upload, in order and complete.".into(),
         assumptions: vec!["a forced yield at a named scheduling point models a pre-emption by another worker thread there".into(), "at most two forced pre-emptions per run are enumerated systematically".into()],
-        floors: vec![("schedules_run", 2000), ("single_preemptions", 1000), ("frames_parsed", 10_000)],
+        floors: vec![("schedules_run", 2000), ("single_preemptions", 1000), ("frames_parsed", 10_000), ("front_end_uploads_checked", 24)],
         exhaustive: false,
     }
+}
+
+// ---------------------------------------------------------------------------
+// end to end: one application upload through a front-end is one writer; if the front-end spreads it over two
+// paths inside the session (the awaited write and the queue of the forwarding task) the frames of that one upload
+// can overtake each other. Observed where it matters: the byte stream arriving at the target.
+
+pub fn run_e2e(ctx: Ctx) -> Report {
+    use crate::netkit::{self, SocksDest, Target};
+    use crate::prng::Pattern;
+    use tokio::io::{AsyncReadExt, AsyncWriteExt};
+    let quick = ctx.tier == crate::report::Tier::Quick;
+    let seed = ctx.seed;
+    run::case_begin("C11 e2e");
+    let mut rep = run::rt_block_on(8, async move {
+        let mut rep = Report::new("C11");
+        let Some((server_addr, _sh)) = netkit::start_server(netkit::PASSWORD, engine::default_padding()).await else {
+            rep.inconclusive("cannot start server");
+            return rep;
+        };
+        let client = netkit::make_client(&server_addr, netkit::PASSWORD, engine::default_padding(), netkit::quiet_pool());
+        let (Some((socks, _h1)), Some((http, _h2))) = (netkit::start_socks5(client.clone()).await, netkit::start_http(client.clone()).await) else {
+            rep.inconclusive("cannot start the front-ends");
+            return rep;
+        };
+        let Some(mut target) = Target::bind_v4(0).await else {
+            rep.inconclusive("cannot bind target");
+            return rep;
+        };
+        let tport = target.port;
+        let got: Arc<Mutex<HashMap<std::net::SocketAddr, (Vec<u8>, bool)>>> = Arc::new(Mutex::new(HashMap::new()));
+        {
+            let got = got.clone();
+            tokio::spawn(async move {
+                while let Some(a) = target.rx.recv().await {
+                    let got = got.clone();
+                    tokio::spawn(async move {
+                        let mut s = a.stream;
+                        let mut buf = vec![0u8; 65536];
+                        let mut all = Vec::new();
+                        let mut eof = false;
+                        loop {
+                            match tokio::time::timeout(Duration::from_secs(15), s.read(&mut buf)).await {
+                                Ok(Ok(0)) => {
+                                    eof = true;
+                                    break;
+                                }
+                                Ok(Ok(n)) => all.extend_from_slice(&buf[..n]),
+                                _ => break,
+                            }
+                        }
+                        got.lock().unwrap().insert(a.dialled, (all, eof));
+                    });
+                }
+            });
+        }
+        #[derive(Clone, Debug)]
+        struct Up {
+            uniq: u32,
+            front: u8, // 1 = SOCKS5, 2 = HTTP CONNECT
+            writes: Vec<usize>,
+            gap_ms: u64,
+            pipelined: bool, // the first bytes travel in the same segment as the request (SOCKS5 only)
+            linger_ms: u64,  // time between the last write and the half-close
+        }
+        let mut rng = Rng::new(seed ^ 0xE11);
+        let mut cases = Vec::new();
+        let patterns: Vec<Vec<usize>> = vec![vec![8192, 8192, 1000], vec![16384, 5], vec![8192], vec![8192, 1], vec![24576, 100, 8192, 3], vec![65536, 10], vec![100_000], vec![3, 8192, 8192, 8192, 7]];
+        let mut uniq = 0u32;
+        for round in 0..if quick { 2 } else { 30 } {
+            for (pi, pat) in patterns.iter().enumerate() {
+                for front in [1u8, 2] {
+                    uniq += 1;
+                    let mut writes = pat.clone();
+                    if round > 0 {
+                        for w in writes.iter_mut() {
+                            if rng.chance(0.3) {
+                                *w = (*w + rng.usize(0, 16)).max(1);
+                            }
+                        }
+                    }
+                    cases.push(Up { uniq, front, writes, gap_ms: *rng.pick(&[0u64, 0, 2, 20]), pipelined: front == 1 && (pi + round) % 2 == 0, linger_ms: *rng.pick(&[0u64, 0, 50, 300]) });
+                }
+            }
+        }
+        let results: Arc<Mutex<Vec<(Up, Result<(), String>)>>> = Arc::new(Mutex::new(Vec::new()));
+        {
+            let results = results.clone();
+            netkit::for_each_limited(cases, 8, move |c| {
+                let results = results.clone();
+                let (socks, http) = (socks.clone(), http.clone());
+                async move {
+                    let ip = netkit::uniq_ip(71, c.uniq);
+                    let pat = Pattern::new(seed, c.uniq as u64, 0);
+                    let r: Result<(), String> = async {
+                        let total: usize = c.writes.iter().sum();
+                        let all = pat.make(0, total);
+                        let mut off = 0usize;
+                        let mut s = if c.front == 1 {
+                            if c.pipelined {
+                                // greeting, request and the first write in one segment
+                                let mut s = tokio::net::TcpStream::connect(&socks).await.map_err(|e| e.to_string())?;
+                                let _ = s.set_nodelay(true);
+                                let mut first = vec![5u8, 1, 0, 5, 1, 0];
+                                first.extend_from_slice(&SocksDest::V4(ip, tport).encode());
+                                first.extend_from_slice(&all[..c.writes[0]]);
+                                off = c.writes[0];
+                                s.write_all(&first).await.map_err(|e| e.to_string())?;
+                                let mut reply = [0u8; 12];
+                                tokio::time::timeout(Duration::from_secs(20), s.read_exact(&mut reply)).await.map_err(|_| "no SOCKS5 reply".to_string())?.map_err(|e| e.to_string())?;
+                                if reply[3] != 0 {
+                                    return Err(format!("SOCKS5 reply {}", reply[3]));
+                                }
+                                s
+                            } else {
+                                let (s, code) = netkit::socks5_connect(&socks, &SocksDest::V4(ip, tport), Duration::from_secs(20)).await?;
+                                if code != 0 {
+                                    return Err(format!("SOCKS5 reply {code}"));
+                                }
+                                s
+                            }
+                        } else {
+                            let mut s = tokio::net::TcpStream::connect(&http).await.map_err(|e| e.to_string())?;
+                            let _ = s.set_nodelay(true);
+                            s.write_all(format!("CONNECT {ip}:{tport} HTTP/1.1\r\nHost: {ip}:{tport}\r\n\r\n").as_bytes()).await.map_err(|e| e.to_string())?;
+                            let mut head = Vec::new();
+                            let mut b = [0u8; 1];
+                            while !head.ends_with(b"\r\n\r\n") {
+                                match tokio::time::timeout(Duration::from_secs(20), s.read(&mut b)).await {
+                                    Ok(Ok(1)) => head.push(b[0]),
+                                    _ => return Err("no CONNECT reply".into()),
+                                }
+                            }
+                            if !head.starts_with(b"HTTP/1.1 200") {
+                                return Err(format!("CONNECT refused: {}", String::from_utf8_lossy(&head)));
+                            }
+                            s
+                        };
+                        let skip = if off > 0 { 1 } else { 0 };
+                        for w in c.writes.iter().skip(skip) {
+                            s.write_all(&all[off..off + w]).await.map_err(|e| e.to_string())?;
+                            off += w;
+                            if c.gap_ms > 0 {
+                                tokio::time::sleep(Duration::from_millis(c.gap_ms)).await;
+                            }
+                        }
+                        if c.linger_ms > 0 {
+                            tokio::time::sleep(Duration::from_millis(c.linger_ms)).await;
+                        }
+                        let _ = s.shutdown().await;
+                        // keep our side open until the tunnel has wound down
+                        let mut rest = Vec::new();
+                        let _ = tokio::time::timeout(Duration::from_secs(10), s.read_to_end(&mut rest)).await;
+                        Ok(())
+                    }
+                    .await;
+                    results.lock().unwrap().push((c, r));
+                }
+            })
+            .await;
+        }
+        tokio::time::sleep(Duration::from_millis(400)).await;
+        let results = std::mem::take(&mut *results.lock().unwrap());
+        let got = got.lock().unwrap().clone();
+        for (c, r) in results {
+            let ip = netkit::uniq_ip(71, c.uniq);
+            let fname = if c.front == 1 { "socks5" } else { "http_connect" };
+            let case = json!({"kind": "c11-e2e-upload", "front": fname, "writes": c.writes, "gap_ms": c.gap_ms, "pipelined_with_request": c.pipelined, "linger_ms": c.linger_ms, "seed": seed.to_string()});
+            rep.case(Some(hash_str(&case.to_string())));
+            if let Err(e) = r {
+                rep.inconclusive(format!("upload through {fname}: {e}"));
+                continue;
+            }
+            rep.add("front_end_uploads_checked", 1);
+            let total: usize = c.writes.iter().sum();
+            let want = Pattern::new(seed, c.uniq as u64, 0).make(0, total);
+            let (have, _eof) = got.iter().find(|(a, _)| a.ip() == std::net::IpAddr::V4(ip)).map(|(_, v)| v.clone()).unwrap_or_default();
+            if have != want {
+                let at = have.iter().zip(want.iter()).position(|(a, b)| a != b).unwrap_or(have.len().min(want.len()));
+                // where do the bytes found at the point of divergence come from in the upload?
+                let from = if at < have.len() { (0..want.len().saturating_sub(8)).find(|i| want[*i..*i + 8.min(want.len() - *i)] == have[at..(at + 8).min(have.len())]) } else { None };
+                let sym = if at == have.len() { "tail_of_the_upload_missing_at_the_target" } else { "upload_reordered_at_the_target" };
+                rep.violate("wire_order", &format!("e2e+{fname}+one_upload"), sym, format!("one application uploaded {total} bytes through the {fname} front-end in writes of {:?}{}; the target received {} bytes, identical up to offset {at}{}", c.writes, if c.pipelined { " (the first write in the same segment as the request)" } else { "" }, have.len(), match from { Some(f) => format!(", where it continues with the bytes of upload offset {f}"), None => String::new() }), case);
+            }
+        }
+        rep
+    });
+    for p in run::panic_log() {
+        if !run::is_harness_panic(&p) {
+            rep.violate("wire_order", "e2e", "panic", p, json!({}));
+        }
+    }
+    run::case_end();
+    rep
 }
